@@ -10,7 +10,7 @@ What is defined here is the meaning of the *Python* primitives, independent of a
 * `listPop`, `getItemI`, `setItem`, `setItemI` — `l.pop()`, `l[i]`, `l[i] = v` with Python's
                               negative-index rule for `Int` indices and IndexError as `none`
 * `listSort`                — `list.sort()` (stable; insertion sort is the executable definition)
-* `Gen` / `GStep`           — generators driven by `next()`×k and `close()` (see below)
+* `GenRes`, `escaped`       — result of driving a generator with `next()`×k and `close()`
 
 Core Lean only.
 -/
@@ -81,5 +81,15 @@ def sortInsert {α : Type} (lt : α → α → Bool) (x : α) : List α → List
 def listSort {α : Type} (lt : α → α → Bool) : List α → List α
   | [] => []
   | x :: xs => sortInsert lt x (listSort lt xs)
+
+/-- what the driver `k × next()`, then `close()` saw of a generator: the values yielded and the
+    exception that came out of `next()` (`none`: exhausted, or closed while suspended) -/
+structure GenRes (Y : Type) where
+  out : List Y
+  exc : Option Exc
+
+/-- `close()` swallows the GeneratorExit it raised; anything else propagates -/
+def escaped (e : Exc) : Option Exc :=
+  if e = .generatorExit then none else some e
 
 end Asynkit.PyRt
